@@ -216,9 +216,56 @@ def rule_estimators(ctx: Ctx):
                 same_ok = len(same) == 1 and isinstance(same[0][0].ops[0], ast.Eq if same[0][1] else ast.NotEq)
                 okgap = bool(loops) and norm(expand_locals(f.node, loops[-1].iter)) == f"{sn}._reference_continuum" and bool(upd) and \
                     loops[-1].body.index(upd[0]) == len(loops[-1].body) - 1 and len(ifs) == 1 and same_ok
-            ctx.check(okgap, "R-C15-3", f, same_annot[0] if same_annot else None,
-                      "gap: start of a unit minus end of the previous unit of the same annotator (no gap across annotators)",
-                      bad_detail="gaps are not `start - previous end` between consecutive units of the same annotator", key="list:gap")
+            shape1_skeleton = False
+            if len(same_annot) == 1:
+                l_ = enclosing(f.node, same_annot[0], (ast.For,))
+                shape1_skeleton = bool(l_) and norm(expand_locals(f.node, l_[-1].iter)) == f"{sn}._reference_continuum"
+            if not okgap and not shape1_skeleton:
+                # second shape: per annotator, over the consecutive pairs of its units
+                #   for S in R._annotations.values(): lst.extend(u.segment.start - p.segment.end for p, u in pairwise(S))     (or zip(S, S[1:]))
+                shape2 = None
+                for c in walk_no_nested(f.node):
+                    if not (isinstance(c, ast.Call) and norm(c.func) in (f"{lst}.extend", f"{lst}.append") and len(c.args) == 1):
+                        continue
+                    g_ = c.args[0]
+                    loops = enclosing(f.node, c, (ast.For,))
+                    if isinstance(g_, (ast.GeneratorExp, ast.ListComp)) and len(g_.generators) == 1 and not g_.generators[0].ifs:
+                        elt, tgt, it = g_.elt, g_.generators[0].target, g_.generators[0].iter
+                    elif isinstance(g_, ast.BinOp) and loops and norm(c.func).endswith(".append"):
+                        elt, tgt, it = g_, loops[-1].target, loops[-1].iter
+                        loops = loops[:-1]
+                    else:
+                        continue
+                    if not (isinstance(elt, ast.BinOp) and isinstance(elt.op, ast.Sub) and norm(elt.left).endswith(".segment.start") and norm(elt.right).endswith(".segment.end")):
+                        continue
+                    cur, prev = norm(elt.left)[:-len(".segment.start")], norm(elt.right)[:-len(".segment.end")]
+                    S = None
+                    if isinstance(it, ast.Call) and norm(it.func) in ("pairwise", "itertools.pairwise") and len(it.args) == 1:
+                        S = norm(it.args[0])
+                    elif isinstance(it, ast.Call) and norm(it.func) == "zip" and len(it.args) == 2 and \
+                            norm(it.args[1]) in (f"{norm(it.args[0])}[1:]", f"{norm(it.args[0]).replace('[:-1]', '')}[1:]") and \
+                            (norm(it.args[0]).endswith("[:-1]") or not isinstance(it.args[0], ast.Subscript)):
+                        S = norm(it.args[0]).replace("[:-1]", "")
+                    if S is None or not (isinstance(tgt, ast.Tuple) and len(tgt.elts) == 2 and all(isinstance(e, ast.Name) for e in tgt.elts)):
+                        continue
+                    per_annotator = bool(loops) and norm(expand_locals(f.node, loops[-1].iter)) in (f"{sn}._reference_continuum._annotations.values()",
+                                                                                                   f"{sn}._reference_continuum._annotations.items()") and \
+                        S in {x.id for x in ast.walk(loops[-1].target) if isinstance(x, ast.Name)}
+                    shape2 = (c, [e.id for e in tgt.elts] == [prev, cur], per_annotator)
+                if shape2 is None:
+                    ctx.undecided("R-C15-3", f, None, "gap: the list of gaps is built neither by the one-pass loop over the reference (previous unit of the same annotator) nor per "
+                                  "annotator over consecutive pairs: shape not recognised (not a verdict)", key="list:gap")
+                else:
+                    c, order_ok, per_annotator = shape2
+                    if not per_annotator:
+                        ctx.undecided("R-C15-3", f, c, "gap: consecutive pairs are taken, but not of each annotator's own units (not a verdict)", key="list:gap")
+                    else:
+                        ctx.check(order_ok, "R-C15-3", f, c, "gap: start of a unit minus end of the previous unit of the same annotator, over each annotator's consecutive pairs",
+                                  bad_detail="the gap of a consecutive pair is taken as `start of the earlier unit - end of the later one`", key="list:gap")
+            else:
+                ctx.check(okgap, "R-C15-3", f, same_annot[0] if same_annot else None,
+                          "gap: start of a unit minus end of the previous unit of the same annotator (no gap across annotators)",
+                          bad_detail="gaps are not `start - previous end` between consecutive units of the same annotator", key="list:gap")
     f = ctx.fn(f"{CLS}._set_categories_information", "R-C15-3")
     sn = f.self_name
     cats = [s for s in walk_no_nested(f.node) if isinstance(s, ast.Assign) and norm(s.value) == f"{sn}._reference_continuum.categories"]
